@@ -873,3 +873,60 @@ def regex_punctuation_range(tree):
                         out.append((c, f"regex-punctuation-range:{chr(lo)}-{chr(hi)}", f"the character class in {pat[:50]!r} contains the range `{chr(lo)}-{chr(hi)}` "
                                     f"(a `-` that is not first or last in the class): besides the two endpoints it admits {extra!r}"))
     return out
+
+
+def splitext_never_equal(fn_node):
+    """``os.path.splitext(x)[1] in (".bak", "~")`` — the extension splitext returns is empty or starts with a dot, so a
+    comparison with a string that does not start with ``.`` (``"~"``, ``"bak"``) can never hold: that case is silently lost."""
+    out = []
+
+    def is_ext(e):
+        return isinstance(e, ast.Subscript) and isinstance(e.value, ast.Call) and A.unparse(e.value.func).endswith("splitext") and A.const(e.slice) in (1, -1)
+    ext_names = {t.id for t, v, st in A.assignments(fn_node) if isinstance(t, ast.Name) and is_ext(v)}
+    for t, v, st in A.assignments(fn_node):
+        # root, ext = os.path.splitext(x)
+        if isinstance(t, ast.Tuple) and len(t.elts) == 2 and isinstance(v, ast.Call) and A.unparse(v.func).endswith("splitext") and isinstance(t.elts[1], ast.Name):
+            ext_names.add(t.elts[1].id)
+    for c in ast.walk(fn_node):
+        if not (isinstance(c, ast.Compare) and len(c.ops) == 1 and isinstance(c.ops[0], (ast.Eq, ast.NotEq, ast.In, ast.NotIn))):
+            continue
+        sides = [c.left, c.comparators[0]]
+        if not any(is_ext(s) or (isinstance(s, ast.Name) and s.id in ext_names) for s in sides):
+            continue
+        lits = []
+        for s in sides:
+            if isinstance(s, ast.Constant) and isinstance(s.value, str):
+                lits.append(s.value)
+            elif isinstance(s, (ast.Tuple, ast.List, ast.Set)):
+                lits += [e.value for e in s.elts if isinstance(e, ast.Constant) and isinstance(e.value, str)]
+        bad = [x for x in lits if x and not x.startswith(".")]
+        for x in bad:
+            out.append((c, f"splitext-never-equal:{x}", f"`{A.unparse(c)[:70]}` compares the extension returned by splitext() with {x!r}: that extension is empty or starts "
+                        f"with '.', so this alternative can never match (a trailing {x!r} is not an extension)"))
+    return out
+
+
+def publish_failure_as_status(fn_node):
+    """``try: os.rename(tmp, final) except OSError: log(...); return False`` — a failing publish step is turned into a return
+    value / a log line without looking at the error and without re-raising: callers written for "raises on failure" (and any
+    caller that ignores the value) go on as if the new state were in place."""
+    out = []
+    for t in ast.walk(fn_node):
+        if not isinstance(t, ast.Try):
+            continue
+        ren = [c for s in t.body for c in ast.walk(s) if isinstance(c, ast.Call) and A.unparse(c.func) in ("os.rename", "os.replace")]
+        if not ren:
+            continue
+        for h in t.handlers:
+            names = _handler_names(h)
+            if not set(names) & _BROAD_OS:
+                continue
+            raises = any(isinstance(n, ast.Raise) for s in h.body for n in ast.walk(s))
+            inspects = h.name is not None and any(isinstance(n, ast.Name) and n.id == h.name and not isinstance(getattr(n, "_parent", None), ast.FormattedValue)
+                                                  and isinstance(getattr(n, "_parent", None), (ast.Attribute, ast.Compare, ast.Call)) and not (
+                                                      isinstance(n._parent, ast.Call) and A.unparse(n._parent.func).split(".")[0] in ("logger", "logging", "str", "repr"))
+                                                  for s in h.body for n in ast.walk(s))
+            if not raises and not inspects and not all(isinstance(s, ast.Pass) for s in h.body):
+                out.append((h, f"publish-failure-as-status:{A.unparse(ren[0].func)}", f"`except {', '.join(names)}` around `{A.unparse(ren[0])[:50]}` neither re-raises nor looks at the error: "
+                            f"a failed rename (the step that puts the new state in place) is reduced to a log line / return value, and what follows treats the new state as present"))
+    return out
